@@ -14,9 +14,8 @@ CHECKS = {
         '1/2/4 messages in flight; 1..8 invocations on the same message) around scripted handlers, compared with the model on everything observable and judged '
         'by the clause-wise acceptor; Throttle start times (messages with live, already ended and ending-while-waiting contexts, alone and interleaved through one value) judged by the spacing predicate of the theorem.'),
   note=('Trusted: Coq kernel + vm_compute; Go defer/recover, context cancellation/deadline, time.Ticker, gobreaker (closed), pkg/errors as modelled; the Go harness '
-        '(scripted handler, pointer/identity decoding, canonicalisation of delay metadata) and checks/c19.py. Partial: Throttle rate on the implementation is a '
-        'wall-clock lower bound with one period of slack; IEEE rounding excluded by dyadic multipliers; "the model passes the acceptor for every chain" is checked per case, '
-        'not proved as one theorem; the attempt-count theorem is for Retry outermost (Retry inside a chain is covered by the context theorem and the runs).'),
+        '(scripted handler, pointer/identity decoding, canonicalisation of delay metadata) and checks/c19.py. Proved as one theorem (C19_model_accepted): the repaired model passes the acceptor the check evaluates, for every chain, script and message; Retry anywhere in the chain keeps the attempt count; deadline lower bound over a clock model; messages arriving with a deadline. Partial: Throttle rate and the deadline lower bound on the implementation are '
+        'wall-clock lower bounds; IEEE rounding excluded by dyadic multipliers; chains with a second Retry inside the first are compared with the model but not judged.'),
   technique='Coq proof (frame lemmas for arbitrary inner handlers, simulation + induction over chains and the retry loop, nia for the schedule, invariant of the ticker model) + differential correspondence check on the real middlewares + executable clause-wise acceptor',
   design_ref='DESIGN.md section 7 C12/C13/C19'),
 }
